@@ -186,6 +186,20 @@ theorem finding_mname_taken :
     resolveBefore wMTaken (.master 0) = some 1 ∧ resolveAfter wMTaken (.master 0) = some 2 ∧
     ¬ Preserved wMTaken (.master 0) := by decide
 
+/-- the other order holds: styles.xml has `P1` (1) THEN `MP1` (2), content.xml has `P1` (0).  Both styles.xml
+    definitions move on (`MP1`, `MMP1`), the map is `P1 → MP1`, `MP1 → MMP1`, and a reference is sent through it
+    exactly ONCE: header `P1 → MP1` (1), footer `MP1 → MMP1` (2).  (Following the map transitively would send the
+    header to the footer's style.)  Outside `Handled`, so an instance by evaluation. -/
+def wMAfter : Pkg :=
+  { cAuto := [⟨true, cParagraph, P1, 0, []⟩], body := [⟨a_text_style_name, P1, cParagraph⟩], common := []
+    sAuto := [⟨true, cParagraph, P1, 1, []⟩, ⟨true, cParagraph, mName P1, 2, []⟩]
+    master := [⟨a_text_style_name, P1, cParagraph⟩, ⟨a_text_style_name, mName P1, cParagraph⟩] }
+
+theorem source_mname_after_holds :
+    (load wMAfter).auto.map (·.name) = [P1, mName P1, mName (mName P1)] ∧
+    (load wMAfter).master.map (·.name) = [mName P1, mName (mName P1)] ∧
+    ¬ Handled wMAfter ∧ ∀ s ∈ allSites wMAfter, Preserved wMAfter s := by decide +kernel
+
 /-- **the index ignores the family**: a graphic style of styles.xml named like a paragraph style of content.xml
     is renamed although the two can never be confused; the header frame's `draw:style-name` then dangles -/
 def wOtherFamily : Pkg :=
